@@ -266,6 +266,22 @@ def run(loader, R, tier):
                 % (enum, [f["n"] for f in ff], ", ".join(cats)))
     R.floor("classes with floating members", R.instances.get("R19.4", 0), 2)
 
+    # ---------------------------------------------------------- R19.6
+    # integers are archived as decimal strings of arbitrary length: the
+    # loader must not route them through a machine-word conversion that
+    # saturates (strtol family) unless it checks the range
+    from selib.numlit import strtol_range_rule
+    ser = [f for f in prog.functions.values()
+           if f.get("file", "").endswith("serialize-cereal.h")
+           and f.get("body") and not f.get("dependent")
+           and f.get("tk") != "pattern"]
+    R.rule("R19.6", "archived integers are not read through an unchecked "
+                    "strtol-family conversion")
+    nst = strtol_range_rule(prog, R, "R19.6", ser)
+    R.instance("R19.6", "serialize-cereal.h functions scanned",
+               nontrivial=False, sample={"functions": len(ser),
+                                         "strtol_family_calls": nst})
+
     # ---------------------------------------------------------- R19.5
     sops = AR.archive_ops(prog, sf, arname="this")
     lops = AR.archive_ops(prog, lf, arname="this")
